@@ -49,11 +49,41 @@ class Const(SV):
 
 
 class Unk(SV):
-    def __init__(self, why=""):
+    def __init__(self, why="", deps=()):
         self.why = why
+        self.deps = frozenset(deps)
 
     def __repr__(self):
         return f"?({self.why[:40]})"
+
+
+class ListV(SV):
+    """A list under construction (literal + append/extend); copied when a path forks."""
+
+    def __init__(self, items=()):
+        self.items = list(items)
+
+    def copy(self):
+        return ListV([x.copy() if isinstance(x, ListV) else x for x in self.items])
+
+    def __repr__(self):
+        return "L[" + ", ".join(map(repr, self.items)) + "]"
+
+
+def deps_of(sv):
+    """Schema / parameter fields a symbolic value was computed from."""
+    if isinstance(sv, Field):
+        return frozenset([sv.path])
+    if isinstance(sv, (Tup, ListV)):
+        out = frozenset()
+        for x in sv.items:
+            out |= deps_of(x)
+        return out
+    if isinstance(sv, Arr):
+        return deps_of(sv.elem) | frozenset([sv.path])
+    if isinstance(sv, Unk):
+        return sv.deps
+    return frozenset()
 
 
 class Tup(SV):
@@ -132,7 +162,8 @@ class Path:
         self.end = None
 
     def fork(self):
-        return Path(dict(self.env), list(self.conds), list(self.events))
+        env = {k: (v.copy() if isinstance(v, ListV) else v) for k, v in self.env.items()}
+        return Path(env, list(self.conds), list(self.events))
 
 
 class SymEval:
@@ -159,13 +190,15 @@ class SymEval:
                 return Unk(f"{base!r} has no field {e.attr}")
             if isinstance(base, Tup) and base.names and e.attr in base.names:
                 return base.items[base.names.index(e.attr)]
-            return Unk(unparse(e))
-        if isinstance(e, ast.Tuple) or isinstance(e, ast.List):
+            return Unk(unparse(e), deps_of(base))
+        if isinstance(e, ast.Tuple):
             return Tup([self.ev(x, p) for x in e.elts])
+        if isinstance(e, ast.List):
+            return ListV([self.ev(x, p) for x in e.elts])
         if isinstance(e, ast.Subscript):
             base = self.ev(e.value, p)
             idx = self.ev(e.slice, p) if not isinstance(e.slice, ast.Slice) else None
-            if isinstance(base, Tup) and isinstance(idx, Const) and isinstance(idx.v, int):
+            if isinstance(base, (Tup, ListV)) and isinstance(idx, Const) and isinstance(idx.v, int):
                 if -len(base.items) <= idx.v < len(base.items):
                     return base.items[idx.v]
                 return Unk(f"index {idx.v} out of range for {len(base.items)} fields")
@@ -176,7 +209,7 @@ class SymEval:
                     return Tup(base.items[lo.v:hi.v])
             if isinstance(base, Arr):
                 return base.elem
-            return Unk(unparse(e))
+            return Unk(unparse(e), deps_of(base) | (deps_of(idx) if idx is not None else frozenset()))
         if isinstance(e, ast.UnaryOp):
             v = self.ev(e.operand, p)
             if isinstance(v, Const):
@@ -203,7 +236,10 @@ class SymEval:
                 except Exception:
                     return Unk(unparse(e))
             # a schema field is never None-by-construction in our model; leave unknown
-            return Unk(unparse(e))
+            d = frozenset()
+            for v in vals:
+                d |= deps_of(v)
+            return Unk(unparse(e), d)
         if isinstance(e, ast.BoolOp):
             vs = [self.ev(v, p) for v in e.values]
             if all(isinstance(v, Const) for v in vs):
@@ -214,7 +250,10 @@ class SymEval:
                 return Const(False)
             if isinstance(e.op, ast.Or) and any(isinstance(v, Const) and v.v for v in vs):
                 return Const(True)
-            return Unk(unparse(e))
+            d = frozenset()
+            for v in vs:
+                d |= deps_of(v)
+            return Unk(unparse(e), d)
         if isinstance(e, ast.IfExp):
             t = self.ev(e.test, p)
             if isinstance(t, Const):
@@ -222,20 +261,39 @@ class SymEval:
             a, b = self.ev(e.body, p), self.ev(e.orelse, p)
             if repr(a) == repr(b):
                 return a
-            return Unk("ifexp:" + unparse(e.test))
+            return Unk("ifexp:" + unparse(e.test), deps_of(a) | deps_of(b) | deps_of(t))
         if isinstance(e, ast.Call):
-            args = [self.ev(a.value if isinstance(a, ast.Starred) else a, p) for a in e.args]
+            args = []
+            for a in e.args:
+                if isinstance(a, ast.Starred):
+                    v = self.ev(a.value, p)
+                    if isinstance(v, (ListV, Tup)):
+                        args.extend(v.items)
+                    else:
+                        args.append(Unk("*" + unparse(a.value), deps_of(v)))
+                else:
+                    args.append(self.ev(a, p))
             kwargs = {k.arg: self.ev(k.value, p) for k in e.keywords}
             callee = unparse(e.func)
+            recv = None
             if isinstance(e.func, ast.Attribute):
-                self.ev(e.func.value, p)
+                recv = self.ev(e.func.value, p)
+                if isinstance(recv, ListV) and e.func.attr == "append" and len(args) == 1:
+                    recv.items.append(args[0])
+                    return Const(None)
+                if isinstance(recv, ListV) and e.func.attr == "extend" and len(args) == 1 and isinstance(args[0], (ListV, Tup)):
+                    recv.items.extend(args[0].items)
+                    return Const(None)
             if self.interest is None or self.interest(callee):
                 p.events.append(Event(callee, args, kwargs, p.conds, e))
             if callee == "len" and args and isinstance(args[0], Tup):
                 return Const(len(args[0].items))
             if callee in ("list", "tuple") and args:
                 return args[0]
-            r = Unk(callee + "(...)")
+            d = deps_of(recv) if recv is not None else frozenset()
+            for a in list(args) + list(kwargs.values()):
+                d |= deps_of(a)
+            r = Unk(callee + "(...)", d)
             r.call = (callee, args, kwargs)
             return r
         if isinstance(e, ast.BinOp):
@@ -245,11 +303,14 @@ class SymEval:
                     return Const({ast.Add: lambda: a.v + b.v, ast.Sub: lambda: a.v - b.v, ast.Mult: lambda: a.v * b.v}[type(e.op)]())
                 except Exception:
                     pass
-            r = Unk(unparse(e))
+            r = Unk(unparse(e), deps_of(a) | deps_of(b))
             r.binop = (type(e.op).__name__, a, b)
             return r
         if isinstance(e, (ast.ListComp, ast.GeneratorExp, ast.SetComp, ast.DictComp)):
-            return Unk("comprehension")
+            d = frozenset()
+            for g in e.generators:
+                d |= deps_of(self.ev(g.iter, p))
+            return Unk("comprehension", d)
         if isinstance(e, ast.JoinedStr):
             return Unk("fstring")
         if isinstance(e, ast.Await):
@@ -287,7 +348,7 @@ class SymEval:
                         self.bind(x, iv, p)
             else:
                 for x in t.elts:
-                    self.bind(x.value if isinstance(x, ast.Starred) else x, Unk(f"elem of {v!r}"), p)
+                    self.bind(x.value if isinstance(x, ast.Starred) else x, Unk(f"elem of {v!r}", deps_of(v)), p)
         elif isinstance(t, ast.Starred):
             self.bind(t.value, v, p)
         elif isinstance(t, (ast.Attribute, ast.Subscript)):
@@ -340,10 +401,12 @@ class SymEval:
             it = self.ev(s.iter, p)
             if isinstance(it, Arr):
                 elem = it.elem
+            elif isinstance(it, (ListV, Tup)) and it.items:
+                elem = it.items[0]
             elif isinstance(it, Unk) and getattr(it, "call", None) and it.call[0].endswith(".items") :
-                elem = Tup([Unk("key"), Unk("value")])
+                elem = Tup([Unk("key", it.deps), Unk("value", it.deps)])
             else:
-                elem = Unk(f"elem of {it!r}")
+                elem = Unk(f"elem of {it!r}", deps_of(it))
             self.bind(s.target, elem, p)
             outs = self.run_block(s.body, [p])
             res = []
